@@ -37,6 +37,8 @@ type Gen struct {
 	boxed      map[string]bool
 	curPkg     *types.Package
 	vcBytes    int
+	heapRefKind map[string]string
+	epochAlloc  map[string]string
 	intMode    bool // integers are mathematical (Int) with overflow obligations; otherwise bit-vectors
 	lemmaTerms []string
 	lemmaNames []string
@@ -44,7 +46,7 @@ type Gen struct {
 
 func newGen(p *Program, intMode bool) *Gen {
 	g := &Gen{P: p, intMode: intMode, declSet: map[string]bool{}, heapSort: map[string]string{}, strLits: map[string]string{}, tags: map[string]int{},
-		havocs: map[string]int{}, assumed: map[string]bool{}, boxed: map[string]bool{}}
+		havocs: map[string]int{}, assumed: map[string]bool{}, boxed: map[string]bool{}, heapRefKind: map[string]string{}, epochAlloc: map[string]string{}}
 	g.decl("sort:Str", "(declare-sort Str 0)")
 	is := g.IS()
 	g.decl("fun:slen", "(declare-fun slen (Str) "+is+")")
@@ -304,7 +306,7 @@ func (g *Gen) zero(t types.Type) string {
 	case *types.Interface:
 		return "(mk_iface 0 0)"
 	case *types.Array:
-		return fmt.Sprintf("((as const %s) %s)", g.sortOf(t), g.zero(u.Elem()))
+		return g.constArray(g.sortOf(t), g.zero(u.Elem()))
 	case *types.Struct:
 		if g.isOpaqueStruct(t) {
 			s := g.sortOf(t)
@@ -574,4 +576,19 @@ func (g *Gen) rangeFact(x string, t types.Type) string {
 	}
 	lo, hi := intRange(w, signed)
 	return fmt.Sprintf("(and (<= %s %s) (<= %s %s))", g.lit(lo, w), x, x, g.lit(hi, w))
+}
+
+// constArray: an array that maps every index to v. cvc5 only accepts values in (as const ...),
+// so non-value elements (uninterpreted zero constants) get a declared array with an axiom.
+func (g *Gen) constArray(arrSort, v string) string {
+	if !strings.Contains(v, "str_empty") && !strings.Contains(v, "zero$") && !strings.Contains(v, "mk$") {
+		return fmt.Sprintf("((as const %s) %s)", arrSort, v)
+	}
+	name := "constarr$" + fmt.Sprintf("%x", hashString(arrSort+"|"+v))
+	if !g.declSet["const:"+name] {
+		g.decl("const:"+name, fmt.Sprintf("(declare-const %s %s)", name, arrSort))
+		ks := firstSort(arrSort[len("(Array "):])
+		g.defs = append(g.defs, fmt.Sprintf("(forall ((i %s)) (! (= (select %s i) %s) :pattern ((select %s i))))", ks, name, v, name))
+	}
+	return name
 }
